@@ -6,5 +6,6 @@ int main(int argc, char **argv) {
     vf::install_crash_handler();
     RUN("shared_future_history", 1, true, scn::shared_future_history(o, R, o.cases));
     RUN("shared_future_mt", o.threads, true, scn::shared_future_mt(o, R, T, o.cases));
+    RUN("shared_future_trivial_types", 1, true, scn::shared_future_trivial_types(o, R, o.cases));
     return 0;
 }
